@@ -13,6 +13,15 @@ def statesOf {I S : Type} (e : Env I S) (i : I) (as : List Nat) : List S :=
     | a :: as => go (e.step i s a) (s :: acc) as
   go (e.reset i) [] as
 
+/-- row-major `m × m` matrix backed by an array (constant-time lookup; instances have up to 100² entries) -/
+def fn2A (m : Nat) (xs : List Int) : Nat → Nat → Int :=
+  let arr := xs.toArray
+  fun a b => arr.getD (a * m + b) 0
+
+def fn1A (xs : List Int) : Nat → Int :=
+  let arr := xs.toArray
+  fun j => arr.getD j 0
+
 def rowStr (n : Nat) (f : Nat → Int) : String := intsStr ((List.range n).map f)
 
 /-- `flp.episode n quota | D n² row-major | d0 n | actions`
@@ -23,7 +32,7 @@ def episode (toks : List String) : Option String := do
   let [hd, dm, d0, acts] ← parseSections toks | none
   let [n, q] := hd | none
   let n := n.toNat
-  let i : Rl4co.Flp.Inst := { n := n, quota := q, D := fn2 n dm, d0 := fn1 d0 }
+  let i : Rl4co.Flp.Inst := { n := n, quota := q, D := fn2A n dm, d0 := fn1A d0 }
   let as := toNats acts
   let tr := episodeTrace Rl4co.Flp.env i as
   let sts := statesOf Rl4co.Flp.env i as
@@ -40,7 +49,7 @@ def opt (toks : List String) : Option String := do
   let [hd, dm, d0, _] ← parseSections toks | none
   let [n, q] := hd | none
   let n := n.toNat
-  let i : Rl4co.Flp.Inst := { n := n, quota := q, D := fn2 n dm, d0 := fn1 d0 }
+  let i : Rl4co.Flp.Inst := { n := n, quota := q, D := fn2A n dm, d0 := fn1A d0 }
   pure s!"opt={Rl4co.Spec.Flp.optimum i} nfeas={(Rl4co.Spec.Flp.candidates i).length}"
 
 /-- `flp.view B n | chosen bits (B·n, row-major)` → the rows of `chosen.nonzero(as_tuple=True)[1].view(B, -1)`
@@ -53,7 +62,15 @@ def view (toks : List String) : Option String := do
   let flat := Rl4co.Flp.flatIdx b (fun _ => n) chosen
   pure s!"rows={":".intercalate ((List.range b).map (fun r => natsStr (Rl4co.Flp.viewRow b flat r)))}"
 
+/-- `flp.dm n | xs | ys` (integer grid coordinates) → `Flp.distOf`, the model of `get_distance_matrix`, row-major -/
+def dm (toks : List String) : Option String := do
+  let [hd, xs, ys] ← parseSections toks | none
+  let [n] := hd | none
+  let n := n.toNat
+  let x := fn1A xs; let y := fn1A ys
+  pure s!"dm={intsStr ((List.range (n * n)).map (fun p => Rl4co.Flp.distOf x y (p / n) (p % n)))}"
+
 def handlers : List (String × (List String → Option String)) :=
-  [("flp.episode", episode), ("flp.opt", opt), ("flp.view", view)]
+  [("flp.episode", episode), ("flp.opt", opt), ("flp.view", view), ("flp.dm", dm)]
 
 end Rl4co.Driver.Flp
